@@ -42,6 +42,10 @@ class ScriptedStdin(io.StringIO):
         return r
 
 
+class CliExit(Exception):
+    """the command-line tool ended with a non-zero exit status"""
+
+
 class AdminEnv:
     def __init__(self, device, platform="ledger"):
         self.device = device
@@ -70,6 +74,48 @@ class AdminEnv:
         misc.SIGNER_WAIT_TIME = self._wait
         self._es.close()
         return False
+
+    FLAGS_LEDGER = {"pin": "-p", "new_pin": "-n", "output_file_path": "-o",
+                    "attestation_certificate_file_path": "-t", "root_authority": "-r",
+                    "pubkeys_file_path": "-b", "attestation_ud_source": "--attudsource",
+                    "signer_authorization_file_path": "-z"}
+    SWITCHES = {"any_pin": "-a", "no_unlock": "-u", "no_exec": "-e", "verbose": "-v"}
+
+    def run_cli(self, operation, opts, stdin="", getpass_answers=None):
+        """the same operation through the tool's own command line (adm_ledger.main /
+        adm_sgx.main: argument parser, defaults, dispatch table, exit codes).
+        -> (ok, stdout, exception) like run()"""
+        import importlib
+        mod = importlib.import_module("adm_ledger" if self.platform == "ledger" else "adm_sgx")
+        flags = dict(self.FLAGS_LEDGER)
+        if self.platform != "ledger":
+            flags["pin"] = "-P"
+        argv = [mod.__name__ + ".py", operation]
+        for k, f in flags.items():
+            v = getattr(opts, k, None)
+            if v is not None:
+                argv += [f, str(v)]
+        for k, f in self.SWITCHES.items():
+            if getattr(opts, k, False):
+                if k == "no_exec" and self.platform != "ledger":
+                    continue
+                argv.append(f)
+        saved = sys.argv
+
+        def fn(_):
+            sys.argv = argv
+            try:
+                mod.main()
+            except SystemExit as e:
+                if e.code not in (0, None):
+                    raise CliExit(e.code)
+            finally:
+                sys.argv = saved
+        import logging
+        try:
+            return self.run(fn, None, stdin, getpass_answers)
+        finally:
+            logging.disable(logging.CRITICAL)
 
     def run(self, fn, opts, stdin="", getpass_answers=None):
         """-> (ok, stdout, exception)"""
